@@ -14,6 +14,8 @@ pub enum Hint {
     /// an honest inexact hint whose upper bound is attained: `(0, Some(elements left))`
     Upper,
     Unbounded,
+    /// inexact; a call of `size_hint` by a thread of the case (the crate makes none) panics once every element was produced
+    PanicEnd,
     /// claims `(k - produced, Some(k - produced))` whatever the script holds (a dishonest exact hint)
     Fixed(usize),
 }
@@ -95,6 +97,8 @@ pub struct Case {
     pub inpanic: Vec<usize>,
     /// `Clone::clone` of an element is a scheduling point of its own
     pub clonepoint: bool,
+    pub rawskip: bool,
+    pub clonefrom: bool,
     pub threads: Vec<Vec<Op>>,
     pub owner: Owner,
     pub sched: Vec<usize>,
@@ -216,6 +220,7 @@ fn parse_src(toks: &[&str], ln: usize) -> Result<(Src, usize), String> {
             "inexact" => Ok(Hint::Inexact),
             "upper" => Ok(Hint::Upper),
             "unbounded" => Ok(Hint::Unbounded),
+            "panicend" => Ok(Hint::PanicEnd),
             h if h.starts_with("fixed") => h[5..]
                 .parse::<usize>()
                 .map(Hint::Fixed)
@@ -389,6 +394,8 @@ struct Partial {
     spare: usize,
     inpanic: Vec<usize>,
     clonepoint: bool,
+    rawskip: bool,
+    clonefrom: bool,
     threads: Vec<Vec<Op>>,
     owner: Option<Owner>,
     sched: Option<Vec<usize>>,
@@ -447,6 +454,8 @@ fn finish(p: Partial) -> Result<Case, String> {
         pod: p.pod,
         inpanic: p.inpanic,
         clonepoint: p.clonepoint,
+        rawskip: p.rawskip,
+        clonefrom: p.clonefrom,
         spare: p.spare,
         threads: p.threads,
         owner: p.owner.unwrap_or(Owner::Drop),
@@ -527,6 +536,12 @@ pub fn parse_cases(text: &str) -> Result<Vec<Case>, String> {
             }
             "clonepoint" => {
                 p.clonepoint = true;
+            }
+            "rawskip" => {
+                p.rawskip = true;
+            }
+            "clonefrom" => {
+                p.clonefrom = true;
             }
             "inpanic" => {
                 for t in &toks[1..] {
